@@ -204,7 +204,10 @@ fn check_c08(case: &Case, i: usize, tx: &TxSpec, pre: &World, post: &World, out:
         let cb_post = big(&post.accounts.get(&cb).map(|a| a.balance).unwrap_or_default());
         let s_post = big(&post.accounts.get(&tx.caller).map(|a| a.balance).unwrap_or_default());
         let sd_overflow = sd_completed.iter().any(|r| r.target != r.contract && big(&pre.accounts.get(&r.target).map(|a| a.balance).unwrap_or_default()) + big(&r.value) >= two256);
-        let cause = if cb_post == maxb && &cb_pre + &reward > maxb {
+        let _ = &cb_pre;
+        // the coinbase ends exactly at 2^256-1 and what is missing is at most the reward it was due
+        // (its balance may have come close to the maximum inside the transaction)
+        let cause = if dir == "destroyed" && cb_post == maxb && amount <= reward {
             "beneficiary-reward-saturates-at-2^256-1"
         } else if s_post == maxb {
             "sender-reimbursement-saturates-at-2^256-1"
@@ -416,6 +419,12 @@ pub fn run_generated(ctx: &Ctx, n: u64, wl: &Workload, bias: fn(&mut Rng, &mut C
             let spec = random_spec(rng, wl.include_osaka);
             let mut case = gen_case(rng, spec, wl.max_txs);
             bias(rng, &mut case);
+            if wl.include_osaka && rng.chance(1, 8) {
+                // validated EOF containers (EXT*CALL, EOFCREATE, RETURNCONTRACT frames)
+                case = super::c26_eof::gen_eof_case(rng);
+                case.txs.truncate(wl.max_txs.max(2));
+            }
+            let spec = case.spec;
             rep.eval();
             let sc = None;
             let st = check_case(&case, rep, wl.snapshots, sc);
